@@ -70,7 +70,7 @@ Definition T : tables := {|
               (X "504f5354202f20485454502f312e31", SlOk {| p11 := true; nobody := false |})];
   t_hdrs := [((true, [(X "486f7374", X "78")]), HOk);
              ((true, [(X "486f7374", X "78"); (X "5472616e736665722d456e636f64696e67", X "6368756e6b6564")]), HOk)];
-  t_decode := []; t_2047 := []; t_trailer := [] |}.
+  t_decode := []; t_2047 := []; t_trailer := []; t_connect := [] |}.
 Definition per_octet (l : bytes) : list bytes := map (fun c => [c]) l.
 Definition res (r : pstate * list msg * option err) := let '(s, ms, e) := r in (length ms, e).
 
